@@ -90,7 +90,7 @@ STATS = {"built": 0, "touched": 0, "fallback": 0, "siblings": 0, "via_negation":
          "lifts_through_Parallelepiped_builder": 0, "results_moved_by_the_caller": 0}      # shared with props.common.HIST_STATS
 
 
-def lift(d, rng=None, nt=float, form=None):
+def lift(d, rng=None, nt=float, form=None, past=None):
     """build the real object.  ``rng`` (random.Random) picks among equivalent
     constructor forms / vertex orders; None = canonical form."""
     G = load()
@@ -98,7 +98,7 @@ def lift(d, rng=None, nt=float, form=None):
     r = rng
     # "points with a past": every caller-side Point handed to a constructor in this lift has first been used to build
     # lines / segments / half lines that were then moved away - the Point itself must not have noticed
-    season = r is not None and k not in ("P", "VEC") and r.random() < 0.07
+    season = r is not None and k not in ("P", "VEC") and (r.random() < 0.07 or past)
     if season:
         STATS["lifts_from_points_with_a_past"] += 1
     # "the caller goes on using its Points": after the object has been built the caller's own Point objects are moved
